@@ -83,7 +83,7 @@ RetEv ==
                ELSE CASE run.mode \in {"err", "errdown"} -> (IF e.errkind = "injected" THEN {} ELSE V("ErrorSurfaces", "result error class: " \o e.errkind))
                       [] run.mode = "panic" -> (IF e.errkind # "none" THEN {} ELSE V("PanicSurfaces", "successful result after a panic in a storage callback"))
                       [] run.mode \in {"cancel", "block", "cancelcall"} ->
-                           (IF e.errkind = "ctx" \/ (e.errkind = "none" /\ e.equal) THEN {}
+                           (IF e.errkind = e.want \/ (e.errkind = "none" /\ e.equal) THEN {}
                             ELSE V("CancelFinal", "result error class: " \o e.errkind \o (IF e.errkind = "none" THEN " (partial result)" ELSE "")))
                       [] OTHER -> {}
          v3 == IF run.mode = "none" /\ ~e.equal THEN V("FaultFreeOK", "fault-free run differs from the baseline: " \o e.errkind) ELSE {}
